@@ -16,6 +16,7 @@ import dns.name
 import dns.rdata
 import dns.rdataclass
 import dns.rdatatype
+import dns.rdtypes.util
 import dns.tokenizer
 import dns.ttl
 
@@ -254,6 +255,8 @@ def cases(ctx):
         yield "generic-from-text", [31, enc(mutate_text(rng, t))]
     # --- address text codecs (dns/ipv4.py, dns/ipv6.py)
     yield from addr_cases(ctx)
+    # --- NSEC/NSEC3/CSYNC type bitmaps (dns/rdtypes/util.py Bitmap)
+    yield from bitmap_cases(ctx)
     # --- the regular record types through the schema model
     yield from schema_cases(ctx)
     # --- whole records (oracle only)
@@ -423,6 +426,41 @@ def addr_cases(ctx):
         yield "ipv6-aton", [53, enc(m.decode("latin-1"))]
 
 
+def windows_of_types(types):
+    """independent canonical encoder (RFC 4034 4.1.2)"""
+    out = []
+    for window in sorted({t >> 8 for t in types}):
+        bits = bytearray(32)
+        for t in types:
+            if t >> 8 == window:
+                bits[(t & 0xFF) >> 3] |= 0x80 >> (t & 7)
+        n = max(i for i in range(32) if bits[i]) + 1
+        out.append([window, bytes(bits[:n])])
+    return out
+
+
+def bitmap_cases(ctx):
+    rng = ctx.rng
+    for _ in range(ctx.n(120, 4000)):
+        types = sorted(c05lib.gen_types(rng))
+        ws = windows_of_types(types)
+        yield "bitmap-types", [54, ws]
+        r = rng.random()
+        ts = list(types)
+        if r < 0.5:
+            rng.shuffle(ts)
+        if r < 0.3:
+            ts += [rng.choice(ts) for _ in range(rng.randint(1, 3))]
+        if r > 0.9:
+            ts.append(0)
+        yield "bitmap-from-rdtypes", [55, ts]
+        # non-canonical but constructible windows: trailing zero octets, all-zero bitmap
+        w2 = [[w, b + bytes(rng.randint(0, min(2, 32 - len(b))))] for w, b in ws]
+        if rng.random() < 0.2:
+            w2.append([min(255, w2[-1][0] + 1), b"\x00"]) if w2[-1][0] < 255 else None
+        yield "bitmap-types", [54, w2]
+
+
 def mutate_ascii(rng, b):
     b = bytearray(b)
     for _ in range(rng.randint(1, 3)):
@@ -558,6 +596,12 @@ def impl(case):
                 return Err(105, "ValueError")
         if op == 53:
             return dns.ipv6.inet_aton(dec(case[1]))
+        if op == 54:
+            bm = dns.rdtypes.util.Bitmap([(w, bytes(b)) for w, b in case[1]])
+            return [int(dns.rdatatype.from_text(tok)) for tok in bm.to_text().split()]
+        if op == 55:
+            bm = dns.rdtypes.util.Bitmap.from_rdtypes([dns.rdatatype.RdataType.make(t) for t in case[1]])
+            return [[int(w), bytes(b)] for w, b in bm.windows]
         if op == 40:
             return enc(build_rdata(case[1], case[2]).to_text(style=style_obj(case[3])))
         if op == 41:
@@ -686,6 +730,13 @@ def oracle(ctx, kind, case, out):
                 fail("address text does not parse back to the same octets", sig="addr")
         except Exception as e:  # noqa
             fail("address text does not parse: %r" % e, sig="addr")
+    elif op == 54 and not isinstance(out, Err):
+        # the printed types, read back, must give the same windows when the bitmap is canonical
+        ws = [[w, bytes(b)] for w, b in case[1]]
+        if all(len(b) > 0 and b[-1] != 0 for _, b in ws) and 0 not in out:
+            back = dns.rdtypes.util.Bitmap.from_rdtypes([dns.rdatatype.RdataType.make(t) for t in out])
+            if [[int(w), bytes(b)] for w, b in back.windows] != ws:
+                fail("type bitmap does not survive to_text / from_rdtypes", sig="bitmap")
     elif op == 13:
         text = dec(out)
         try:
